@@ -880,6 +880,15 @@ def run(tier: str, seed: int, replay=None) -> int:
                    "NasControlMC_snh_homog", "NasControlMC_pith_homog", "NasControlMC_mpsf_idcache_train",
                    "NasControlMC_snf_idcache_iter", "NasControlMC_pitf_nodiverge"]
 
+    # scenarios are independent of each other (fresh model, own seeds): executed by a few single-threaded processes.
+    # The workers are forked NOW, before any TLC subprocess exists (a forked worker would inherit the pipes of a running
+    # subprocess and keep them open).
+    global _EXEC
+    _EXEC = execute
+    pex = ProcessPoolExecutor(max_workers=4, mp_context=multiprocessing.get_context("fork"))
+    if [f.result() for f in [pex.submit(int, k) for k in range(8)]] != list(range(8)):
+        raise MachineryError("worker pool")
+
     # 1. design level (all TLC runs side by side, in the background) + dumps
     tlc.scratch()
     dots = {cfg: tempfile.mktemp(prefix=f"c11-{cfg}-", suffix=".dot", dir=tlc.scratch()) for _, cfg, _, _, _ in configs}
@@ -915,11 +924,6 @@ def run(tier: str, seed: int, replay=None) -> int:
     traces: List[Dict[str, Any]] = []
     vex = ThreadPoolExecutor(max_workers=3)     # TLC validates finished parts while the next ones are executed
     vfuts = []
-
-    # scenarios are independent of each other (fresh model, own seeds): executed by a few single-threaded processes
-    global _EXEC
-    _EXEC = execute
-    pex = ProcessPoolExecutor(max_workers=4, mp_context=multiprocessing.get_context("fork"))
 
     def run_part(part_s):
         part_t = list(pex.map(_exec_one, part_s, chunksize=2))
